@@ -131,6 +131,11 @@ func ruleC13_2(c *Ctx) {
 			if !cls["rq"] {
 				missing = append(missing, "request (rq)")
 			}
+			if cls["up"] && len(missing) == 0 {
+				c.Fail("C13.2", "policy-sources-error-reply fn="+c.P.ShortName(fn), "the error reply's own directives do not grant stale-if-error",
+					where+": the policy is also given the directives of the origin's error reply; a stale-if-error present only on the error reply would serve the stored response", where)
+				return
+			}
 			if len(missing) > 0 {
 				c.Fail("C13.2", "policy-sources fn="+c.P.ShortName(fn), desc,
 					where+": missing "+strings.Join(missing, ", ")+". Witness: stored `stale-if-error=60`, origin answers a bare 503 => the 503 is returned although the stored response allows stale serving", where)
